@@ -25,7 +25,9 @@ type cfg struct {
 	MaxPending   int // 0 = unset
 }
 
-func (c cfg) String() string { return fmt.Sprintf("initial=%v max=%v cap=%d", c.Initial, c.Max, c.MaxPending) }
+func (c cfg) String() string {
+	return fmt.Sprintf("initial=%v max=%v cap=%d", c.Initial, c.Max, c.MaxPending)
+}
 
 func (c cfg) opts() ratelimiting.OptionsCoalescing {
 	o := ratelimiting.OptionsCoalescing{InitialDelay: &c.Initial, MaxDelay: &c.Max}
@@ -376,6 +378,9 @@ func plans() []plan {
 	for i := 0; i < mon.Pick(800, 40000); i++ {
 		ps = append(ps, plan{mode: "racing"})
 	}
+	for i := 0; i < mon.Pick(60, 2000); i++ {
+		ps = append(ps, plan{mode: "longchain"})
+	}
 	return ps
 }
 
@@ -383,7 +388,7 @@ func TestCheck(t *testing.T) {
 	rec = mon.Open("C09")
 	defer rec.Close()
 	rec.Note("rule", "a case is one timeline against the real limiter in a synctest bubble: (lockstep) seeded Add/burst/sleep sequences with sleeps to just before, exactly at and just after the reference window end, compared signal-for-signal with the statement's automaton; (racing) bursts from 2-8 goroutines at shared virtual instants with a prompt or slow consumer, ended by Close or cancel at a seeded instant, judged by the conservation and bounded-progress invariants; (directed) the run loop parked at loop.top / input.recv / timer.recv while Add / Close / cancel are issued. Non-trivial = at least two Adds or a placed operation; distinct = distinct (config, step list).")
-	rec.Note("require", []string{"park.loop.top", "park.input.recv", "park.timer.recv", "lockstep.signals_matched", "lockstep.window_end_exact", "lockstep.cap_fired", "racing.adds", "racing.shutdown_with_undelivered_signals", "lockstep.burst_owed_signal", "shutdown.close", "shutdown.cancel", "directed.close_while_parked"})
+	rec.Note("require", []string{"park.loop.top", "park.input.recv", "park.timer.recv", "lockstep.signals_matched", "lockstep.window_end_exact", "lockstep.cap_fired", "racing.adds", "longchain.adds_in_one_window", "racing.shutdown_with_undelivered_signals", "lockstep.burst_owed_signal", "shutdown.close", "shutdown.cancel", "directed.close_while_parked"})
 	ps := plans()
 	rec.Planned(len(ps))
 	for idx, pl := range ps {
@@ -393,7 +398,9 @@ func TestCheck(t *testing.T) {
 		rng := mon.NewRNG("c09", idx)
 		switch pl.mode {
 		case "lockstep":
-			runLockstep(t, idx, rng)
+			runLockstep(t, idx, rng, false)
+		case "longchain":
+			runLockstep(t, idx, rng, true)
 		case "racing":
 			runRacing(t, idx, rng)
 		case "directed":
@@ -414,10 +421,17 @@ func finish(idx int, w *world, res mon.BubbleResult, nontrivial bool) {
 	}
 }
 
-func runLockstep(t *testing.T, idx int, rng *mon.RNG) {
+// runLockstep: longChain = one window kept open by 70-140 waited Adds (the window must stay at
+// MaxDelay however long events keep arriving; no pending-events cap in that mode).
+func runLockstep(t *testing.T, idx int, rng *mon.RNG, longChain bool) {
 	c := genCfg(rng)
-	rec.Begin(idx, "lockstep "+c.String())
-	w := &world{idx: idx, mode: "lockstep", c: c}
+	mode := "lockstep"
+	if longChain {
+		mode = "longchain"
+		c.MaxPending = 0
+	}
+	rec.Begin(idx, mode+" "+c.String())
+	w := &world{idx: idx, mode: mode, c: c}
 	r := newRef(c)
 	res := mon.Bubble(t, func() {
 		h := w.hook
@@ -443,8 +457,36 @@ func runLockstep(t *testing.T, idx int, rng *mon.RNG) {
 			return true
 		}
 		nsteps := rng.Range(3, 30)
+		if longChain {
+			nsteps = rng.Range(70, 140)
+		}
 		for s := 0; s < nsteps && !w.viol; s++ {
-			switch k := rng.Intn(11); {
+			k := rng.Intn(11)
+			if longChain {
+				// alternate Add and a sleep shorter than the current window, so the chain never breaks
+				if s%2 == 0 {
+					k = 0
+				} else {
+					r.advance(time.Now())
+					d := c.Initial / 2
+					if !r.idle {
+						if rem := r.end.Sub(time.Now()); rem > 2 {
+							d = time.Duration(1 + rng.Intn(int(rem-1)))
+						} else {
+							d = 0
+						}
+					}
+					if d > 0 {
+						w.step("sleep " + d.String())
+						time.Sleep(d)
+						synctest.Wait()
+						compare()
+					}
+					rec.Count("longchain.adds_in_one_window", 1)
+					continue
+				}
+			}
+			switch {
 			case k == 10:
 				// un-waited burst: n Adds back to back from one goroutine (or from n goroutines), the run
 				// loop handles them as it pleases. Whatever the interleaving, if the burst starts from
@@ -497,7 +539,7 @@ func runLockstep(t *testing.T, idx int, rng *mon.RNG) {
 				}
 			case k < 5:
 				n := 1
-				if rng.Chance(1, 3) {
+				if rng.Chance(1, 3) && !longChain {
 					n = rng.Range(2, 5)
 				}
 				for i := 0; i < n; i++ {
